@@ -571,6 +571,8 @@ def run_cases(rep, cases, evalfn, shrinkfn=None, nproc=None, known=None):
         if err is not None:
             raise RuntimeError("harness error on case %s:\n%s" % (json.dumps(case, default=str)[:500], err))
         rep.count(case, nontrivial=out.get("nontrivial", True), tag=out.get("tag"))
+        for sk, sv in (out.get("stats") or {}).items():      # optional per-case counters, summed
+            rep.dist["stat:" + sk] = rep.dist.get("stat:" + sk, 0) + sv
         detail = out.get("detail")
         if detail is not None:
             if known is not None:
